@@ -817,8 +817,20 @@ func (w *vfWorld) messageTerm(msg string) string {
 
 var vfHTMLMsgRe = regexp.MustCompile(`(?s)<h1>Authentication Error</h1>\s*<p>(.*?)</p>\s*<p><a href="`)
 
-func (w *vfWorld) bodyTerm(o *vfObserved) string {
+// bodyTerm classifies a response body without depending on the static text of the error page or on
+// the wording of the fixed messages: a body is "the provider-error message carrying <desc>" when the
+// request had an error parameter and the (escaped / JSON-encoded) description appears in it, otherwise
+// "some fixed message".
+func (w *vfWorld) bodyTerm(o *vfObserved, req *http.Request) string {
 	ct := o.CType
+	q := req.URL.Query()
+	cand := ""
+	if q.Get("error") != "" {
+		cand = q.Get("error_description")
+		if cand == "" {
+			cand = q.Get("error")
+		}
+	}
 	switch {
 	case o.Body == "" || o.Down:
 		return "BNone"
@@ -832,22 +844,24 @@ func (w *vfWorld) bodyTerm(o *vfObserved) string {
 		if err := json.Unmarshal([]byte(o.Body), &m); err != nil {
 			return "(BJson (MFixed 999))"
 		}
-		if m["error"] == "unauthorized" && m["message"] == "Token refresh failed" {
+		if _, has := m["error_description"]; !has && o.Status == 401 {
 			return "BJson401"
 		}
 		if d, ok := m["error_description"].(string); ok {
-			return "(BJson " + w.messageTerm(d) + ")"
+			if cand != "" && strings.HasSuffix(d, vfValidUTF8(cand)) {
+				return fmt.Sprintf("(BJson (MProviderError %d))", w.in.idb(vfValidUTF8(cand)))
+			}
+			return "(BJson (MFixed 0))"
 		}
 		return "(BJson (MFixed 998))"
 	case strings.HasPrefix(ct, "text/html"):
-		g := vfHTMLMsgRe.FindStringSubmatch(o.Body)
-		if g == nil {
-			if o.Status >= 300 && o.Status < 400 {
-				return "BNone" // the <a href> stub written by http.Redirect
-			}
-			return "(BHtml (MFixed 997))"
+		if o.Status >= 300 && o.Status < 400 {
+			return "BNone" // the <a href> stub written by http.Redirect
 		}
-		return "(BHtml " + w.messageTerm(htmlpkg.UnescapeString(g[1])) + ")"
+		if cand != "" && strings.Contains(o.Body, htmlpkg.EscapeString(cand)) {
+			return fmt.Sprintf("(BHtml (MProviderError %d))", w.in.idb(vfValidUTF8(cand)))
+		}
+		return "(BHtml (MFixed 0))"
 	}
 	return "BNone"
 }
@@ -1072,7 +1086,7 @@ func (w *vfWorld) record(rq vfReq, in *vfInstance, req *http.Request, jar map[st
 		status = 999
 	}
 	obsTerm := fmt.Sprintf("(mkResp %d %s %s %s %s %s %s %s)", status, w.locationTerm(o, req), w.setCookiesTerm(o),
-		w.bodyTerm(o), w.fwdTerm(rq, o), vfBool(o.CORS), w.callsTerm(o), w.flagsTerm(req, jar, o))
+		w.bodyTerm(o, req), w.fwdTerm(rq, o), vfBool(o.CORS), w.callsTerm(o), w.flagsTerm(req, jar, o))
 	step := fmt.Sprintf("(mkStep %d %d %s %s (%d, %d, %d) %s %s %d)", in.idx, rq.Browser, vfZ(now), rqTerm,
 		csrf, nonce, verifier, w.answerTerm(o), obsTerm, rq.Tag)
 	w.steps = append(w.steps, step)
